@@ -349,6 +349,25 @@ func c20Exec(t c20Task) c20Result {
 		}
 	}
 	switch t.Mode {
+	case "valid":
+		// every well-formed encoding of the corpus, including lists longer than any pre-allocation clamp:
+		// hostile bytes are also *long valid* bytes
+		corpus := c15Corpus(true)
+		for i := t.From; i < t.To && i < len(corpus); i++ {
+			c := corpus[i]
+			enc, err := c15Encode(c.P)
+			if err != nil {
+				continue
+			}
+			if t.Decoder == "client message" {
+				report(enc, fmt.Sprintf("valid encoding of corpus value %d", i), c.Name)
+			} else if tx, ok := c.P.(*client.Tx); ok && t.Decoder == "stored tx state record" {
+				var b bytes.Buffer
+				tx.Serialize(&b)
+				report(b.Bytes(), fmt.Sprintf("valid stored record of corpus value %d", i), t.Decoder)
+			}
+		}
+		res.Total = len(corpus)
 	case "short":
 		// every byte string of length <= 3 over a small alphabet behind every type code / as a whole record
 		alpha := []byte{0x00, 0x01, 0x7f, 0x80, 0xfd, 0xfe, 0xff, 0x30}
@@ -471,6 +490,12 @@ func runC20() int {
 			chunk := 2500
 			for from := 0; from < total; from += chunk {
 				tasks = append(tasks, c20Task{Decoder: n, Seed: s, From: from, To: from + chunk, Mode: "splice"})
+			}
+		}
+		if n == "client message" || n == "stored tx state record" {
+			nc := len(c15Corpus(true))
+			for i := 0; i < nc; i += 60 {
+				tasks = append(tasks, c20Task{Decoder: n, From: i, To: i + 60, Mode: "valid"})
 			}
 		}
 		if n == "client message" {
